@@ -22,11 +22,18 @@ var HostileConsts = []string{
 // HostileToks are reference tokens for loose patch paths.
 var HostileToks = []string{"", "a", "b", "0", "1", "-", "-1", "-2", "+1", "01", "-0", "~0", "~1", "~", "~2", "x/y", "9999", "10000", "99999999999999999999", "é", " ", "c", "d"}
 
-// Deep returns a text nested n levels (arrays, objects or a mixture).
+// Deep returns a text nested n levels: kind 0 arrays, 1 objects, 2 alternating,
+// 3 arrays with a sibling element at every level, 4 objects with a sibling member at every level.
 func Deep(n int, kind int) string {
 	var open, close strings.Builder
 	for i := 0; i < n; i++ {
 		switch {
+		case kind == 3: // every level has a sibling in front: [0,[0,[0, ... ]]]
+			open.WriteString("[0,")
+			close.WriteString("]")
+		case kind == 4: // every level has a sibling member: {"s":0,"a":{"s":0,"a": ... }}
+			open.WriteString(`{"s":0,"a":`)
+			close.WriteString("}")
 		case kind == 0 || (kind == 2 && i%2 == 0):
 			open.WriteString("[")
 			close.WriteString("]")
